@@ -1,8 +1,12 @@
 (* C01 -- Exact arithmetic on rationals and complex rationals is exact.
-   Property theorems only; each closed by [exact].  The model is
-   coq/Num/BigUint.v (limb arithmetic, mirror of core/src/num/biguint.rs). *)
-From Coq Require Import Lia.
-From FendV Require Import Base.Prelude Num.BigUint Num.BigUintProofs.
+   Property theorems only; each closed by [exact].  The models are
+   coq/Num/BigUint.v (limb arithmetic, mirror of core/src/num/biguint.rs),
+   coq/Num/BigRat.v (bigrat.rs), coq/Num/RealCx.v (Exact<Real>, Exact<Complex>,
+   the unitless Value layer) and coq/Num/Expr.v (expression trees, the
+   specification cval in Coq's Q). *)
+From Coq Require Import Lia QArith Qpower Qreduction Qabs.
+From FendV Require Import Base.Prelude Num.BigUint Num.BigUintProofs Num.BigRat Num.BigRatProofs
+  Num.RealCx Num.RealCxProofs Num.Expr Num.ExprProofs.
 Open Scope N_scope.
 
 (* ---------------- BigUint: limb arithmetic against N ---------------- *)
@@ -72,9 +76,92 @@ Theorem C01_pow_spec : forall a b, wf a = true -> wf b = true ->
 Proof. exact pow_spec. Qed.
 Print Assumptions C01_pow_spec.
 
+(* ---------------- BigRat against Q ---------------- *)
+
+(* add_internal: gcd/lcm denominators and every sign case; in particular the
+   unreachable!() of BigUint::sub and the assert are never reached *)
+Theorem C01_rat_add_spec : forall oc x y, wfr x = true -> wfr y = true ->
+  exists r, add_internal oc x y = Ok r /\ wfr r = true /\ (qval r == qval x + qval y)%Q.
+Proof. exact radd_spec. Qed.
+Print Assumptions C01_rat_add_spec.
+
+Theorem C01_rat_mul_spec : forall x y, wfr x = true -> wfr y = true ->
+  wfr (rmul x y) = true /\ (qval (rmul x y) == qval x * qval y)%Q.
+Proof. exact rmul_spec. Qed.
+Print Assumptions C01_rat_mul_spec.
+
+Theorem C01_rat_div_spec : forall x y, wfr x = true -> wfr y = true ->
+  if val (rnum y) =? 0 then rdiv x y = Err EDivByZero
+  else exists r, rdiv x y = Ok r /\ wfr r = true /\ (qval r == qval x / qval y)%Q.
+Proof. exact rdiv_spec. Qed.
+Print Assumptions C01_rat_div_spec.
+
+Theorem C01_rat_neg_spec : forall x, (qval (rneg x) == - qval x)%Q.
+Proof. exact qval_neg. Qed.
+Print Assumptions C01_rat_neg_spec.
+
+Theorem C01_rat_simplify_spec : forall oc x, wfr x = true ->
+  exists r, simplify oc x = Ok r /\ wfr r = true /\ rsign r = rsign x /\
+    val (rnum r) = val (rnum x) / N.gcd (val (rnum x)) (val (rden x)) /\
+    val (rden r) = val (rden x) / N.gcd (val (rnum x)) (val (rden x)) /\
+    N.gcd (val (rnum r)) (val (rden r)) = 1 /\ (qval r == qval x)%Q.
+Proof. exact simplify_spec. Qed.
+Print Assumptions C01_rat_simplify_spec.
+
+(* Ord::cmp goes through add and unwraps: the unwrap never fails *)
+Theorem C01_rat_cmp_spec : forall oc x y, wfr x = true -> wfr y = true ->
+  rcmp oc x y = Ok (qval x ?= qval y)%Q.
+Proof. exact rcmp_spec. Qed.
+Print Assumptions C01_rat_cmp_spec.
+
+(* pow with an integer-valued exponent z (however it is written: 6/2, -0, ...) *)
+Theorem C01_rat_pow_spec : forall oc x y z, wfr x = true -> wfr y = true -> (qval y == inject_Z z)%Q ->
+  match rpow oc x y with
+  | Ok (r, fl) => fl = true /\ wfr r = true /\ (qval r == Qpower (qval x) z)%Q /\
+                  ~ ((qval x == 0)%Q /\ (z <= 0)%Z)
+  | Err EZeroPowZero => (qval x == 0)%Q /\ z = 0%Z
+  | Err EDivByZero => (qval x == 0)%Q /\ (z < 0)%Z
+  | Err EExpTooLarge => (Z.of_N W <= Z.abs z)%Z
+  | _ => False
+  end.
+Proof. exact rpow_spec. Qed.
+Print Assumptions C01_rat_pow_spec.
+
+(* ---------------- expressions ---------------- *)
+
+(* For every expression tree over well-formed rational literals (any limb
+   representation), + - * / unary minus, i, real/imag/conjugate and powers
+   (real rational)^(integer): if the model returns a value, the exact flag is
+   set and the value is the complex rational the expression denotes (cval,
+   arithmetic in Q, canonical form); the only other outcomes are the three
+   admissible errors, each caused by a subterm; no panic site (unwrap,
+   unreachable!, assert, overflow check) is ever reached.
+   [cval e <> COutside] says that every power inside e has a real base and an
+   integer real exponent (the property's fragment). *)
+Theorem C01_exact : forall oc e, wf_lits e = true -> cval e <> COutside ->
+  match meval oc e with
+  | Ok (z, fl) => fl = true /\ wfc z = true /\ cval e = cq z
+  | Err EDivByZero => exists_sub node_div0 e
+  | Err EZeroPowZero => exists_sub node_zero_pow_zero e
+  | Err EExpTooLarge => exists_sub node_exp_too_large e
+  | _ => False
+  end.
+Proof. exact exact. Qed.
+Print Assumptions C01_exact.
+
 (* non-vacuity: non-canonical multi-limb operands satisfy the hypotheses *)
 Example C01_hypotheses_inhabited :
   wf (Large [0; W - 1; 0; 0]) = true /\ wf (Small (W - 1)) = true /\ wf (Large [5; 0]) = true /\
   add_known (Large [0; W - 1; 0; 0]) (Small 3) = false /\
   add_known (Small 7) (Large [W - 1; W - 2]) = false.
 Proof. exact wf_inhabited. Qed.
+
+Example C01_rat_hypotheses_inhabited :
+  wfr (mkrat Negative (Large [0; 5; 0]) (Large [3; 1])) = true /\
+  wfr (mkrat Positive (Small 0) (Small 7)) = true.
+Proof. exact wfr_inhabited. Qed.
+
+Example C01_exact_hypotheses_inhabited :
+  wf_lits example_expr = true /\ cval example_expr <> COutside /\
+  exists z, meval true example_expr = Ok (z, true).
+Proof. exact exact_hypotheses_inhabited. Qed.
